@@ -17,6 +17,7 @@ def check(repo, rep, tier):
                        'in the engine context; internal markers cannot be forged from source; loaded code runs on a copy of the '
                        'context with empty __builtins__; API entries are unreachable through the predicate key format; debug '
                        'output cannot leave its comment. What user-registered Python predicates do is out of scope.')
+    re_.rule_source_names_disjoint(cm, em, rep, 'C12.T2f')
     re_.rule_quote_or_class(cm, rep, 'C12.T1')
     re_.rule_no_capture(cm, em, rep, 'C12.T2')
     re_.rule_callee_whitelist(cm, em, rep, 'C12.T3')
